@@ -33,6 +33,7 @@ func init() {
 		"vReach":     shimReach,
 		"vSpawn":     shimSpawn,
 		"vYield":     func(x *Exec, t *Thread, a []Value, c *callCtx) (Value, nativeStatus) { return nil, nDone },
+		"vStep":      func(x *Exec, t *Thread, a []Value, c *callCtx) (Value, nativeStatus) { return nil, nDone },
 		"vGuardedBy": shimGuardedBy,
 		"vSeq":       func(x *Exec, t *Thread, a []Value, c *callCtx) (Value, nativeStatus) { return x.F.BV(64, uint64(x.seqNo)), nDone },
 		"vParam":     shimParam,
@@ -124,6 +125,10 @@ func init() {
 		"(time.Time).Local":   func(x *Exec, t *Thread, a []Value, c *callCtx) (Value, nativeStatus) { return a[0], nDone },
 		"(time.Time).UnixNano": func(x *Exec, t *Thread, a []Value, c *callCtx) (Value, nativeStatus) { return x.timeNs(a[0]), nDone },
 		"(time.Time).String":  func(x *Exec, t *Thread, a []Value, c *callCtx) (Value, nativeStatus) { return Str{K: "<time>"}, nDone },
+		"time.Unix": func(x *Exec, t *Thread, a []Value, c *callCtx) (Value, nativeStatus) {
+			sec, nsec := a[0].(*Term), a[1].(*Term)
+			return x.mkTime(x.F.Add(x.F.BinBV(OpMul, sec, x.F.BV(64, 1000000000)), nsec)), nDone
+		},
 		"time.Since": func(x *Exec, t *Thread, a []Value, c *callCtx) (Value, nativeStatus) {
 			return x.F.Sub(x.readClock(), x.timeNs(a[0])), nDone
 		},
